@@ -48,9 +48,10 @@ type AdvScenario struct {
 	LegitSetup bool     `json:"legit_setup"`
 	LegitOps   int      `json:"legit_ops"`
 	AppOps     int      `json:"app_ops"`
-	Resource   bool     `json:"resource"` // camera snapshot handler installed
-	Unpaired   bool     `json:"unpaired"` // no controller pairing is stored when the run starts
-	PreVerify  bool     `json:"pre_verify"` // every peer connection starts with an honest pair-verify (C13: hostile input after verification)
+	Resource   bool     `json:"resource"`              // camera snapshot handler installed
+	LegitAdmin string   `json:"legit_admin,omitempty"` // "remove": the legitimate controller removes the pairing of "peer-paired"; "rekey": it stores a new key for it
+	Unpaired   bool     `json:"unpaired"`              // no controller pairing is stored when the run starts
+	PreVerify  bool     `json:"pre_verify"`            // every peer connection starts with an honest pair-verify (C13: hostile input after verification)
 	Ops        []AdvOp  `json:"ops"`
 	Sched      []uint16 `json:"sched"`
 }
@@ -124,6 +125,12 @@ func genAdv(prop string) func(rt *rapid.T) interface{} {
 			sc.AppOps = rapid.IntRange(0, 4).Draw(rt, "aops")
 			sc.Resource = rapid.Bool().Draw(rt, "res")
 			nconn = rapid.IntRange(1, 3).Draw(rt, "nconn")
+			if !sc.Unpaired && rapid.IntRange(0, 2).Draw(rt, "admin") == 0 {
+				// the peer used to be paired: it holds the key of "peer-paired", which the legitimate controller removes or replaces
+				sc.KnowsKey = true
+				sc.LegitAdmin = rapid.SampledFrom([]string{"remove", "rekey"}).Draw(rt, "adminkind")
+				kinds = append(kinds, "pv-m1", "pv-m1", "pv-m3-genuine", "pv-m3-genuine", "pv-m3-genuine", "pv-m3-genuine-new", "enc-get-own", "get-acc")
+			}
 			kinds = append(kinds, advHTTP...)
 			kinds = append(kinds, advHTTP...)
 			kinds = append(kinds, advCipher...)
@@ -146,7 +153,12 @@ func genAdv(prop string) func(rt *rapid.T) interface{} {
 			sc.LegitOps = rapid.IntRange(0, 2).Draw(rt, "lops")
 			nconn = rapid.IntRange(1, 2).Draw(rt, "nconn")
 			kinds = append(kinds, advVerify...)
-			kinds = append(kinds, "pv-m1", "pv-m1", "pv-m3-genuine", "pv-m3-self", "pv-m3-wrongkey")
+			kinds = append(kinds, "pv-m1", "pv-m1", "pv-m3-genuine", "pv-m3-self", "pv-m3-wrongkey", "pv-m3-abandon-reuse", "pv-m3-abandon-reuse")
+			if sc.KnowsKey && rapid.IntRange(0, 1).Draw(rt, "admin") == 0 {
+				sc.Legit = true
+				sc.LegitAdmin = rapid.SampledFrom([]string{"remove", "rekey"}).Draw(rt, "adminkind")
+				kinds = append(kinds, "pv-m3-genuine", "pv-m3-genuine", "pv-m3-genuine-new", "pv-m3-genuine-new", "pv-m1")
+			}
 			kinds = append(kinds, "enc-get-own", "enc-get-own", "plain-after", "get-acc")
 		case "C13":
 			sc.KnowsCode = true
@@ -218,13 +230,15 @@ type advWorld struct {
 	w    *World
 	accs []*accessory.Accessory
 
-	legitID  string
-	legitKP  ref.Keypair
-	peerID   string // id used by the peer for itself
-	peerKP   ref.Keypair
-	pairedID string // stored controller whose key the peer may hold
-	pairedKP ref.Keypair
-	otherIDs []string
+	legitID              string
+	legitKP              ref.Keypair
+	peerID               string // id used by the peer for itself
+	peerKP               ref.Keypair
+	pairedID             string // stored controller whose key the peer may hold
+	pairedKP             ref.Keypair
+	pairedKP2            ref.Keypair // the key the legitimate controller stores for it instead ("rekey")
+	adminSent, adminDone bool
+	otherIDs             []string
 
 	canaries []string
 
@@ -245,6 +259,7 @@ type advWorld struct {
 	capturedM5      []byte // encrypted-data value of the legitimate controller's M5
 	capturedPVM3    []byte // TLV body of the legitimate controller's verify finish
 	snapshotCalls   int
+	removedOK       map[string]bool // pairings the legitimate controller removes
 
 	fail, failSig string
 }
@@ -428,12 +443,20 @@ func (aw *advWorld) do(p *peerConn, op AdvOp) *advResult {
 	case "put-ev":
 		p.request("PUT", "/characteristics", ref.CTypeJSON, []byte(`{"characteristics":[{"aid":1,"iid":9,"ev":true}]}`), r)
 	case "pairings-add":
+		if aw.verifiedConns[p.conn.ID] {
+			// a controller that verified with a stored key may manage pairings
+			aw.allowedStore[aw.peerID] = aw.peerKP.Pub
+		}
 		body := ref.TLVEncode([]ref.TLV{{Tag: ref.TagState, Val: []byte{1}}, {Tag: ref.TagMethod, Val: []byte{3}}, {Tag: ref.TagIdentifier, Val: []byte(aw.peerID)}, {Tag: ref.TagPublicKey, Val: aw.peerKP.Pub}, {Tag: ref.TagPermission, Val: []byte{1}}})
 		p.post("/pairings", ref.CTypeTLV, body, r)
 	case "pairings-remove":
 		victim := aw.legitID
 		if !sc.Legit && len(aw.otherIDs) > 0 {
 			victim = aw.otherIDs[0]
+		}
+		if aw.verifiedConns[p.conn.ID] {
+			aw.removedOK[victim] = true
+			delete(aw.requiredStore, victim)
 		}
 		body := ref.TLVEncode([]ref.TLV{{Tag: ref.TagState, Val: []byte{1}}, {Tag: ref.TagMethod, Val: []byte{4}}, {Tag: ref.TagIdentifier, Val: []byte(victim)}})
 		p.post("/pairings", ref.CTypeTLV, body, r)
@@ -734,19 +757,70 @@ func (aw *advWorld) do(p *peerConn, op AdvOp) *advResult {
 		p.pvStarted = false
 	case "pv-unknown-state":
 		p.post("/pair-verify", ref.CTypeTLV, ref.TLVEncode([]ref.TLV{{Tag: ref.TagState, Val: []byte{byte(5 + op.Arg%200)}}}), r)
-	case "pv-m3-genuine", "pv-m3-wrongkey", "pv-m3-unknown", "pv-m3-self", "pv-m3-stale", "pv-m3-reordered", "pv-m3-replay", "pv-m3-wrongseal", "pv-m3-short", "pv-m3-badtlv":
+	case "pv-m3-abandon-reuse":
+		// a genuine finish request is sent, then the connection is dropped without waiting for the
+		// answer and a new connection comes from the same address and port while the handler may still run
+		if !p.pvStarted || !sc.KnowsKey || aw.adminSent {
+			p.request("GET", "/accessories", "", nil, r)
+			return r
+		}
+		items := p.cl.VerifyM3With(p.cl.VerifyKey(), aw.pairedID, aw.pairedKP.Priv, nil)
+		aw.allowedVerified[p.conn.ID] = true
+		// the request arrives in two parts, so that the handler is already running (it waits for the
+		// rest of the body) when the connection is replaced
+		reqBytes := ref.Request("POST", "/pair-verify", ref.CTypeTLV, ref.TLVEncode(items))
+		cut := len(reqBytes) - 20
+		if err := p.cl.Send(reqBytes[:cut]); err != nil {
+			r.Err = err.Error()
+			return r
+		}
+		oldc := p.conn
+		w.StepWhen(p.name, "abandon: rest of the finish request, close, reconnect", func() bool { return !oldc.Pending(0) && oldc.Unread(0) == 0 })
+		if err := p.cl.Send(reqBytes[cut:]); err != nil {
+			r.Err = err.Error()
+			return r
+		}
+		addr := p.conn.Client().LocalAddr().String()
+		p.cl.Conn.Close()
+		c := w.Sim.Dial(w.Sim.Listener, addr)
+		cl := &ref.Client{Conn: c.Client(), Rand: w.Rand}
+		name := p.name
+		cl.Yield = func(what string) { w.Sim.Park("step", name, c.ID, " "+what, nil) }
+		p.cl, p.conn = cl, c
+		p.conns = append(p.conns, c)
+		p.dead = false
+		p.srp, p.salt, p.B, p.m3rightOK, p.setupClean, p.pvStarted, p.pvHave = nil, nil, nil, false, false, false, false
+		w.Sim.Count("fault.address_reuse_mid_handler")
+		// the new connection never ran pair-verify: nothing protected may be served to it
+		op2 := op
+		op2.Kind = "get-acc"
+		r.Op = op2
+		p.cl.Yield("GET /accessories")
+		p.request("GET", "/accessories", "", nil, r)
+	case "pv-m3-genuine", "pv-m3-genuine-new", "pv-m3-wrongkey", "pv-m3-unknown", "pv-m3-self", "pv-m3-stale", "pv-m3-reordered", "pv-m3-replay", "pv-m3-wrongseal", "pv-m3-short", "pv-m3-badtlv":
 		key := p.cl.VerifyKey()
 		cPub, aPub := p.cl.VerifyPub()
 		var items []ref.TLV
 		genuine := false
+		unsure := false // the stored key may be changed by the legitimate controller while the request is in flight
+		kind := 0
 		switch op.Kind {
 		case "pv-m3-genuine":
 			if sc.KnowsKey {
 				items = p.cl.VerifyM3With(key, aw.pairedID, aw.pairedKP.Priv, nil)
-				genuine = p.pvStarted
+				// valid unless the legitimate controller's change of this pairing was complete before the
+				// request was sent; certain only once the answer is in and the change has not even begun
+				unsure = p.pvStarted && !aw.adminDone
+				kind = 1
 			} else {
 				items = p.cl.VerifyM3With(key, aw.pairedID, aw.peerKP.Priv, nil)
 			}
+		case "pv-m3-genuine-new":
+			// signed with the key the legitimate controller stores for "peer-paired" in a rekey
+			items = p.cl.VerifyM3With(key, aw.pairedID, aw.pairedKP2.Priv, nil)
+			genuine = p.pvStarted && sc.LegitAdmin == "rekey" && aw.adminDone
+			unsure = p.pvStarted && sc.LegitAdmin == "rekey" && !aw.adminDone
+			kind = 2
 		case "pv-m3-wrongkey":
 			victim := aw.pairedID
 			if sc.Legit {
@@ -799,16 +873,25 @@ func (aw *advWorld) do(p *peerConn, op AdvOp) *advResult {
 			items = []ref.TLV{{Tag: ref.TagState, Val: []byte{3}}, {Tag: ref.TagEncrypted, Val: ref.Seal(key, []byte("PV-Msg03"), sub, nil)}}
 		}
 		r.Genuine = genuine
-		if genuine {
+		if genuine || unsure {
 			aw.allowedVerified[p.conn.ID] = true
 		}
 		p.post("/pair-verify", ref.CTypeTLV, ref.TLVEncode(items), r)
 		p.pvStarted = false
-		if genuine && r.TLV != nil && tlvState(r.TLV) == 4 && tlvErr(r.TLV) == 0 {
+		if unsure {
+			// now that the answer is in: did the change of the pairing begin at all while the request was in flight?
+			switch {
+			case kind == 1 && !aw.adminSent:
+				genuine, unsure = true, false // old key, nothing changed yet: certainly valid
+			case kind == 2 && !aw.adminSent:
+				genuine, unsure = false, false // new key, the rekey had not even begun: certainly invalid
+			}
+		}
+		if (genuine || unsure) && r.TLV != nil && tlvState(r.TLV) == 4 && tlvErr(r.TLV) == 0 {
 			aw.verifiedConns[p.conn.ID] = true
 			p.cl.StartSession(p.cl.Shared)
 		}
-		if aw.on("C03", "C01") && !genuine && r.Status == 200 && r.TLV != nil && tlvErr(r.TLV) == 0 && tlvState(r.TLV) == 4 {
+		if aw.on("C03", "C01") && !genuine && !unsure && r.Status == 200 && r.TLV != nil && tlvErr(r.TLV) == 0 && tlvState(r.TLV) == 4 {
 			aw.violate("finish-accepted", "a finish request that is not genuine (%s) was answered with state 4 and no error", op.Kind)
 		}
 
@@ -948,10 +1031,11 @@ func runAdv(t *testing.T, sci interface{}) *Outcome {
 	sc := sci.(*AdvScenario)
 	return bubbleOutcome(t, sc.Seed, sc.Sched, func(w *World) *Outcome {
 		o := &Outcome{}
-		aw := &advWorld{sc: sc, w: w, allowedStore: map[string][]byte{}, requiredStore: map[string][]byte{}, verifiedConns: map[int]bool{}, allowedVerified: map[int]bool{}, legitConn: -1, legitWrites: map[string]bool{}, initialEntities: map[string][]byte{}}
+		aw := &advWorld{sc: sc, w: w, allowedStore: map[string][]byte{}, requiredStore: map[string][]byte{}, verifiedConns: map[int]bool{}, allowedVerified: map[int]bool{}, legitConn: -1, legitWrites: map[string]bool{}, initialEntities: map[string][]byte{}, removedOK: map[string]bool{}}
 		aw.legitID, aw.legitKP = "legit-controller", w.Keypair()
 		aw.peerID, aw.peerKP = "peer-self", w.Keypair()
 		aw.pairedID, aw.pairedKP = "peer-paired", w.Keypair()
+		aw.pairedKP2 = w.Keypair()
 		if !sc.Unpaired {
 			w.SeedPairing(aw.pairedID, aw.pairedKP)
 		}
@@ -1038,6 +1122,24 @@ func runAdv(t *testing.T, sci interface{}) *Outcome {
 							return
 						}
 					}
+				}
+				if sc.LegitAdmin != "" {
+					items := []ref.TLV{{Tag: ref.TagState, Val: []byte{1}}, {Tag: ref.TagMethod, Val: []byte{4}}, {Tag: ref.TagIdentifier, Val: []byte(aw.pairedID)}}
+					if sc.LegitAdmin == "rekey" {
+						items = []ref.TLV{{Tag: ref.TagState, Val: []byte{1}}, {Tag: ref.TagMethod, Val: []byte{3}}, {Tag: ref.TagIdentifier, Val: []byte(aw.pairedID)}, {Tag: ref.TagPublicKey, Val: aw.pairedKP2.Pub}, {Tag: ref.TagPermission, Val: []byte{0}}}
+						aw.allowedStore[aw.pairedID] = aw.pairedKP2.Pub
+					} else {
+						aw.removedOK[aw.pairedID] = true
+					}
+					w.Step("legit", "admin "+sc.LegitAdmin)
+					aw.adminSent = true
+					m, err := cl.Do("POST", "/pairings", ref.CTypeTLV, ref.TLVEncode(items))
+					if err != nil || m.Status != 200 {
+						aw.legitErr = fmt.Sprintf("legit /pairings %s: %v", sc.LegitAdmin, err)
+						return
+					}
+					aw.adminDone = true
+					w.Sim.Count("probe.admin_" + sc.LegitAdmin)
 				}
 			})
 		} else {
@@ -1222,7 +1324,7 @@ func (aw *advWorld) invariants() {
 		if sess == nil {
 			continue
 		}
-		if aw.on("C01", "C03") && sess.Encrypter() != nil && !aw.allowedVerified[id] {
+		if aw.on("C01", "C03") && (sess.Encrypter() != nil || sess.Decrypter() != nil) && !aw.allowedVerified[id] {
 			aw.violate("unverified-connection-has-session", "connection c%d has an active cryptographer although no genuine finish request was ever sent on it", id)
 			return
 		}
@@ -1258,12 +1360,15 @@ func (aw *advWorld) invariants() {
 		}
 	}
 	for name := range aw.initialEntities {
-		if _, ok := actual[name]; !ok {
+		if _, ok := actual[name]; !ok && !aw.removedOK[name] {
 			aw.violate("pairing-removed", "the stored pairing %q disappeared", name)
 			return
 		}
 	}
 	for name, key := range aw.requiredStore {
+		if aw.removedOK[name] {
+			continue
+		}
 		if got, ok := actual[name]; !ok || !bytes.Equal(got, key) {
 			aw.violate("genuine-pairing-not-stored", "the key exchange for %q completed but the pairing is not stored", name)
 			return
@@ -1348,6 +1453,15 @@ func (aw *advWorld) finalChecks(allDone bool) {
 		for _, can := range aw.canaries {
 			if bytes.Contains(r.DecBody, []byte(can)) {
 				aw.violate("canary-disclosed-in-ciphertext", "%s: the answer decrypts under a peer-derived key and contains %q", r.Op.Kind, can)
+				return
+			}
+		}
+	}
+	// when the peer legitimately verified a connection (it held a stored key for a while), callbacks and
+	// snapshots cannot be attributed; everything else above was judged per connection
+	for _, p := range aw.slots {
+		for _, c := range p.conns {
+			if aw.verifiedConns[c.ID] {
 				return
 			}
 		}
